@@ -90,6 +90,18 @@ def w_loopback(ctx: core.Ctx, arg):
             sub.renew(60)
             sub.get_status()
             ctx.count('loopback.renew_getstatus')
+        if consumer_mode == 'enforced':
+            # a peer may hand out endpoints on another host:port with any scheme (subscription manager, hosted service EPRs):
+            # the client an enforced consumer uses for them must still carry its TLS client context
+            other = net.new_server(scheme='http')
+            for addr in (f'http://127.0.0.1:{other.server_port}/x/y', f'https://127.0.0.1:{other.server_port}/x', f'http://localhost:{other.server_port}/'):
+                client = consumer.get_soap_client(addr)
+                ctx.count('loopback.foreign_endpoint_clients')
+                if getattr(client, '_ssl_context', None) is not ccont.client_context:
+                    ctx.witness('connect.enforced_consumer_plaintext_client_for_foreign_endpoint',
+                                'a consumer with enforced TLS creates a SOAP client without its TLS client context for an endpoint on another '
+                                'host:port advertised with http', {**label, 'address': addr})
+                    break
         consumer.stop_all(unsubscribe=True)
         if consumer_mode == 'enforced' and provider_tls:
             # the consumer is started again, now against a peer whose TLS handshake fails: it must fail, never fall back to plaintext
@@ -180,6 +192,33 @@ def w_contexts(ctx: core.Ctx, arg):
             if sc.verify_mode != ssl.CERT_REQUIRED:
                 ctx.witness(f'contexts.verify_mode.{side}', f'{side} context built from a CA file does not require the peer certificate',
                             {'who': name, 'verify_mode': str(sc.verify_mode)})
+    # the same with a cipher string / cipher file (other code path in mk_ssl_contexts)
+    import shutil
+    import tempfile
+    from sdc11073.certloader import mk_ssl_contexts, mk_ssl_contexts_from_folder
+    cipher_variants = []
+    for cyphers in ('HIGH:!aNULL:!MD5', 'ECDHE+AESGCM:ECDHE+CHACHA20'):
+        try:
+            cipher_variants.append((f'cyphers={cyphers}', mk_ssl_contexts(PKI / 'provider.key', PKI / 'provider.pem', PKI / 'ca.pem', cyphers=cyphers)))
+        except ssl.SSLError:
+            ctx.count('contexts.cipher_string_refused')
+    tmp = tempfile.mkdtemp(prefix='vf_c19_')
+    try:
+        for src, dst in (('consumer.key', 'userkey.pem'), ('consumer.pem', 'usercert.pem'), ('ca.pem', 'cacert.pem')):
+            shutil.copy(PKI / src, os.path.join(tmp, dst))
+        with open(os.path.join(tmp, 'cyphers.txt'), 'w') as f:
+            f.write('# comment\nHIGH:!aNULL\n')
+        cipher_variants.append(('folder+cyphers_file', mk_ssl_contexts_from_folder(tmp, cyphers_file='cyphers.txt')))
+        cipher_variants.append(('folder', mk_ssl_contexts_from_folder(tmp)))
+    finally:
+        shutil.rmtree(tmp, ignore_errors=True)
+    for name, c in cipher_variants:
+        for side, sc in (('client', c.client_context), ('server', c.server_context)):
+            ctx.count('contexts.verify_mode_checked')
+            ctx.case(('verify_mode', name, side))
+            if sc.verify_mode != ssl.CERT_REQUIRED:
+                ctx.witness(f'contexts.verify_mode.{side}', f'{side} context built from a CA file does not require the peer certificate',
+                            {'variant': name, 'verify_mode': str(sc.verify_mode)})
     trusted = {'provider': contexts('provider'), 'consumer': contexts('consumer')}
     # peers: trusted, untrusted (signed by another CA), no certificate
     untrusted = contexts('untrusted', ca='otherca.pem')
